@@ -5,7 +5,7 @@ sequence of per-pass *outcomes* with exact binary arithmetic (tol = 0.5, steps a
 Outcome alphabet (as in models/SolveT.tla) and its concretisation variants:
 
     conv   0: A += .25, B -= .25       1: no move               2: A -= .25 only
-    moved  0: far (A = 1000+n, B = -1000-n)   1: B += tol exactly (strict <, last variable only)
+    moved  0: far (A = 10000 n + 1, B = -(10000 n + 1))   1: B += tol exactly (strict <, last variable only)
            2: A -= tol exactly (absolute value, first variable only)   3: only B far   4: A -= 1.0 only
     nanw   0: A = 1/0 (np.float64, RuntimeWarning)   1: B = log(0)   2: A = 0/0
     nans   0: B = nan   1: A = +inf   2: B = -inf      (stored silently)
@@ -80,8 +80,8 @@ class ScriptedBase:
         nonfinite = not (np.isfinite(self._A[t]) and np.isfinite(self._B[t]))
         if o in ('conv', 'moved') and nonfinite:
             s = d['_sc_n'][p]
-            self._A[t] = 8.0 * s + 1000.0 * (o == 'moved')
-            self._B[t] = -8.0 * s - 1000.0 * (o == 'moved')
+            self._A[t] = 8.0 * s + 500.0 * (o == 'moved')
+            self._B[t] = -8.0 * s - 500.0 * (o == 'moved')
             return
         if o == 'conv':
             if v == 0:
@@ -92,14 +92,15 @@ class ScriptedBase:
         elif o == 'moved':
             s = d['_sc_n'][p]
             if v == 0:
-                self._A[t] = 1000.0 + s * 2
-                self._B[t] = -1000.0 - s * 2
+                # far from every value any earlier pass can have left (fresh assignments stay below 1000, far moves are 10000 apart)
+                self._A[t] = 10000.0 * s + 1.0
+                self._B[t] = -10000.0 * s - 1.0
             elif v == 1:
                 self._B[t] += TOL
             elif v == 2:
                 self._A[t] -= TOL
             elif v == 3:
-                self._B[t] = -2000.0 - s * 2
+                self._B[t] = -20000.0 * s - 7.0
             elif v == 4:
                 self._A[t] -= 1.0
         elif o == 'nanw':
